@@ -65,6 +65,9 @@ KINDS = {
     "modtxt": "ALTER TABLE {T} MODIFY COLUMN {b} text;",
     "alttxt": "ALTER TABLE {T} ALTER COLUMN {b} bigint;",
     "defb": "ALTER TABLE {T} ADD CONSTRAINT d3 DEFAULT 7 FOR b;",
+    # a foreign key without a referenced column list (the referenced table's key), and one with a two-word referential action
+    "fknc": "ALTER TABLE {T} ADD FOREIGN KEY (a, c) REFERENCES s9.o;",
+    "fk2w": "ALTER TABLE {T} ADD CONSTRAINT fk3 FOREIGN KEY (c) REFERENCES s9.o (y) ON DELETE SET NULL;",
 }
 MODES = ["sql", "bigquery"]
 D3Q_KINDS = ["add", "ifex", "dropd", "rend", "drop", "rename", "fk1", "modcol", "fkbb", "fkd", "modtxt", "defb"]
@@ -222,6 +225,10 @@ def apply(m, op):
             m["undef"] = True  # a key over a column that does not (or no longer) exist: the statement does not say what happens
     elif k == "fkact":
         A.setdefault("columns", []).append(["c", "y", "CASCADE", "RESTRICT"])
+    elif k == "fknc":
+        A.setdefault("columns", []).extend([["a", None], ["c", None]])
+    elif k == "fk2w":
+        A.setdefault("columns", []).append(["c", "y", "SET NULL", None])
     elif k == "idxn":
         m["index"].append({"index_name": "i4", "unique": False, "columns": ["a", "b", "c"], "orders": ["ASC", "DESC", "ASC"], "nulls": ["LAST", "FIRST", "LAST"]})
     elif k == "idxl":
@@ -272,6 +279,8 @@ def features(case):
     for op in case["ops"]:
         if "bt" in (op[2], op[3]):
             f.append("target:backtick")
+        if op[0] == "fk2w":
+            f.append("alter-fk-action:two-word")
     return sorted(set(f))
 
 
